@@ -47,7 +47,7 @@ LEAVES = [
     ('uint32_pack', {'ptr': {'out': ('bv', 10)}}),
     ('int32_pack', {'ptr': {'out': ('bv', 10)}}),
     ('sint32_pack', {'ptr': {'out': ('bv', 10)}}),
-    ('uint64_pack', {'ptr': {'out': ('bv', 10)}, 'fuel': 8}),
+    ('uint64_pack', {'ptr': {'out': ('bv', 10)}, 'fuel': 5}),
     ('sint64_pack', {'ptr': {'out': ('bv', 10)}}),
     ('fixed32_pack', {'ptr': {'out': ('bv', 10)}}),
     ('fixed64_pack', {'ptr': {'out': ('bv', 10)}}),
@@ -60,13 +60,13 @@ LEAVES = [
     ('unzigzag64', {}),
     ('parse_uint32', {'ptr': {'data': ('bv', 10)}}),
     ('parse_int32', {'ptr': {'data': ('bv', 10)}}),
-    ('parse_uint64', {'ptr': {'data': ('bv', 10)}, 'fuel': 8}),
+    ('parse_uint64', {'ptr': {'data': ('bv', 10)}, 'fuel': 6}),
     ('parse_fixed_uint32', {'ptr': {'data': ('bv', 10)}}),
     ('parse_fixed_uint64', {'ptr': {'data': ('bv', 10)}}),
     ('parse_boolean', {'ptr': {'data': ('fn',)}, 'fuelparam': True}),
-    ('scan_varint', {'ptr': {'data': ('bv', 10)}, 'fuel': 12}),
-    ('parse_tag_and_wiretype', {'ptr': {'data': ('bv', 10), 'tag_out': ('out', 32), 'wiretype_out': ('out', 8)}, 'fuel': 6}),
-    ('scan_length_prefixed_data', {'ptr': {'data': ('bv', 10), 'prefix_len_out': ('out', 64)}, 'fuel': 6}),
+    ('scan_varint', {'ptr': {'data': ('bv', 10)}, 'fuel': 10}),
+    ('parse_tag_and_wiretype', {'ptr': {'data': ('bv', 10), 'tag_out': ('out', 32), 'wiretype_out': ('out', 8)}, 'fuel': 4}),
+    ('scan_length_prefixed_data', {'ptr': {'data': ('bv', 10), 'prefix_len_out': ('out', 64)}, 'fuel': 5}),
     ('max_b128_numbers', {'ptr': {'data': ('fn',)}, 'fuelparam': True}),
     ('int_range_lookup', {'ptr': {'ranges': ('ranges',)}, 'fuelparam': True}),
 ]
@@ -175,8 +175,7 @@ class Fn:
         st = ctx['mem'][pname]
         self.fault_unless(ctx, 'BitVec.ult %s %s' % (off, st['len']))
         if kind[0] == 'bv':
-            W = 8 * kind[1]
-            e = 'BitVec.setWidth 8 (%s >>> (BitVec.setWidth %d %s * 8#%d))' % (st['buf'], W, off, W)
+            e = 'rd%d %s %s' % (kind[1], st['buf'], off)
         elif kind[0] == 'fn':
             e = '%s (%s).toNat' % (st['buf'], off)
         else:
@@ -190,8 +189,7 @@ class Fn:
         p = self.live(ctx)
         if kind[0] == 'bv':
             W = 8 * kind[1]
-            sh = self.let(ctx, 'sh', 'BitVec %d' % W, 'BitVec.setWidth %d %s * 8#%d' % (W, off, W))
-            e = '((%s &&& ~~~(255#%d <<< %s)) ||| (BitVec.setWidth %d %s <<< %s))' % (st['buf'], W, sh, W, val8, sh)
+            e = '(wr%d %s %s %s)' % (kind[1], st['buf'], off, val8)
             new = self.let(ctx, pname + '_buf', 'BitVec %d' % W, self.sel(p, e, st['buf']))
         elif kind[0] == 'fn':
             e = '(fun i => if i = (%s).toNat then %s else %s i)' % (off, val8, st['buf'])
@@ -628,21 +626,24 @@ class Fn:
                 actual.append(e)
         if ccfg.get('fuelparam'):
             actual.append('fuel')
-        r = self.let(ctx, 'r', '%s.Res' % fn, '%s %s' % (fn, ' '.join(actual)))
-        self.fault_unless(ctx, '%s.ok' % r)
+        argstr = ' '.join(actual)
+        # component functions (f.ok, f.ret, f.<p>_buf ...) are called separately so that no
+        # structure projection of a large let-term ever has to be reduced
+        rok = self.let(ctx, 'r_ok', 'Bool', '%s.ok %s' % (fn, argstr))
+        self.fault_unless(ctx, rok)
         p = self.live(ctx)
         for pn, base, kind in ptr_args:
             st = ctx['mem'][base]
             if kind[0] in ('bv', 'fn') and pn in sig['written']:
                 ty = 'BitVec %d' % (8 * kind[1]) if kind[0] == 'bv' else 'Nat → BitVec 8'
-                st['buf'] = self.let(ctx, base + '_buf', ty, self.sel(p, '%s.%s_buf' % (r, pn), st['buf']))
+                st['buf'] = self.let(ctx, base + '_buf', ty, self.sel(p, '%s.%s_buf %s' % (fn, pn, argstr), st['buf']))
                 ctx['mod'].add('@' + base)
             elif kind[0] == 'out':
-                st['val'] = self.let(ctx, base + '_val', 'BitVec %d' % kind[1], self.sel(p, '%s.%s_val' % (r, pn), st['val']))
+                st['val'] = self.let(ctx, base + '_val', 'BitVec %d' % kind[1], self.sel(p, '%s.%s_val %s' % (fn, pn, argstr), st['val']))
                 ctx['mod'].add('@' + base)
         if sig['ret'] is None:
             return None
-        return self.let(ctx, 'rv', 'BitVec %d' % sig['ret'][0], '%s.ret' % r)
+        return self.let(ctx, 'rv', 'BitVec %d' % sig['ret'][0], '%s.ret %s' % (fn, argstr))
 
     def memcpy(self, ctx, args):
         dst, src, cnt = args
@@ -829,24 +830,34 @@ class Fn:
             raise Unsupported('do-while')
         if init:
             self.stmt(ctx, init)
+        if not self.cfg.get('fuelparam'):
+            return self.loop_unrolled(ctx, cond, inc, body, int(self.cfg.get('fuel', 12)))
         self.nloops = getattr(self, 'nloops', 0) + 1
         lname = '%s.loop%d' % (self.name, self.nloops)
         sname = '%s.Loop%d' % (self.name, self.nloops)
         self.loopnames = getattr(self, 'loopnames', []) + [lname]
-        # the loop state: everything mutable (we carry all of it; unused fields are harmless)
-        fields = []  # (field, lean type, getter(ctx)->expr, setter(ctx, expr))
+        # the loop state: only what the loop can modify (found by a syntactic pre-pass); everything
+        # else is handed to the loop function as an invariant parameter.  Small states keep the
+        # unrolled terms small, which is what makes `bv_decide` scale.
+        modset = set()
+        for part in (cond, body, inc):
+            if part:
+                self.modified_in(ctx, part, modset)
+        fields = []  # (field, lean type, accessor)
+        invs = []    # (param name, lean type, accessor)
         for v, (nm, (w, s)) in ctx['env'].items():
-            fields.append(('v_' + v, 'BitVec %d' % w, ('env', v)))
+            (fields if ('env', v) in modset else invs).append(('v_' + v, 'BitVec %d' % w, ('env', v)))
         for pv, (base, off) in ctx['ptrvars'].items():
-            fields.append(('o_' + pv, 'BitVec 64', ('ptrvar', pv)))
+            (fields if ('ptrvar', pv) in modset else invs).append(('o_' + pv, 'BitVec 64', ('ptrvar', pv)))
         for pn, st in ctx['mem'].items():
             kind = self.ptr[pn]
+            tgt = fields if ('mem', pn) in modset else invs
             if kind[0] == 'bv':
-                fields.append(('m_' + pn, 'BitVec %d' % (8 * kind[1]), ('mem', pn, 'buf')))
+                tgt.append(('m_' + pn, 'BitVec %d' % (8 * kind[1]), ('mem', pn, 'buf')))
             elif kind[0] == 'fn':
-                fields.append(('m_' + pn, 'Nat → BitVec 8', ('mem', pn, 'buf')))
+                tgt.append(('m_' + pn, 'Nat → BitVec 8', ('mem', pn, 'buf')))
             elif kind[0] == 'out':
-                fields.append(('m_' + pn, 'BitVec %d' % kind[1], ('mem', pn, 'val')))
+                tgt.append(('m_' + pn, 'BitVec %d' % kind[1], ('mem', pn, 'val')))
         fields.append(('ok', 'Bool', ('ctx', 'ok')))
         fields.append(('returned', 'Bool', ('ctx', 'returned')))
         if SIGS[self.name]['ret'] is not None:
@@ -874,6 +885,14 @@ class Fn:
                     c['mem'].setdefault(acc[1], dict(ctx['mem'][acc[1]]))[acc[2]] = e
                 else:
                     c[acc[1]] = e
+            for f, ty, acc in invs:
+                e = 'i_' + f
+                if acc[0] == 'env':
+                    c['env'][acc[1]] = (e, ctx['env'][acc[1]][1])
+                elif acc[0] == 'ptrvar':
+                    c['ptrvars'][acc[1]] = (ctx['ptrvars'][acc[1]][0], e)
+                elif acc[0] == 'mem':
+                    c['mem'].setdefault(acc[1], dict(ctx['mem'][acc[1]]))[acc[2]] = e
             # invariant parts of memory (lengths, ranges tables) are shared parameters
             for pn, st in ctx['mem'].items():
                 c['mem'].setdefault(pn, dict(st))
@@ -885,7 +904,7 @@ class Fn:
         def pack(c):
             return '⟨' + ', '.join(get(c, acc) for _, _, acc in fields) + '⟩'
 
-        inv = self.inv_params(ctx)
+        inv = self.inv_params(ctx) + [(get(ctx, acc), ty, 'i_' + f) for f, ty, acc in invs]
         # --- successor case
         c1 = mk_ctx('s')
         c1['path'] = self.let(c1, 'p', 'Bool', '(path0 && !s.returned)')
@@ -908,15 +927,16 @@ class Fn:
         go0 = self.let(c0, 'go', 'Bool', self.band(c0['path'], cc0))
         c0['ok'] = self.let(c0, 'ok', 'Bool', '(%s && !%s)' % (c0['ok'], go0))
         zero_state = pack(c0)
-        inv_decl = ' '.join('(%s : %s)' % (a, t) for a, t in inv)
-        inv_args = ' '.join(a for a, t in inv)
+        inv_decl = ' '.join('(%s : %s)' % ((x[2] if len(x) > 2 else x[0]), x[1]) for x in inv)
+        inv_args_inner = ' '.join((x[2] if len(x) > 2 else x[0]) for x in inv)
+        inv_args = ' '.join(x[0] for x in inv)
         self.structs.append('structure %s where\n' % sname + ''.join('  %s : %s\n' % (f, ty) for f, ty, _ in fields))
         d = 'def %s %s (path0 : Bool) : Nat → %s → %s\n' % (lname, inv_decl, sname, sname)
         d += '  | 0, s =>\n' + '\n'.join('  ' + l for l in c0['lines']) + '\n    %s\n' % zero_state
         d += '  | fuel+1, s =>\n' + '\n'.join('  ' + l for l in c1['lines']) + '\n'
         if brk != 'false':
             d += '    bif %s then %s else\n' % (brk, after_body)
-        d += '    %s %s path0 fuel %s\n' % (lname, inv_args, after_body)
+        d += '    %s %s path0 fuel %s\n' % (lname, inv_args_inner, after_body)
         self.aux.append(d)
         # --- call site
         s0 = '⟨' + ', '.join(get(ctx, acc) for _, _, acc in fields) + '⟩'
@@ -934,6 +954,83 @@ class Fn:
                 ctx[acc[1]] = e
         ctx['mod'].add('!ret')
         ctx['path'] = self.after(ctx, ctx['path'])
+
+    def loop_unrolled(self, ctx, cond, inc, body, fuel):
+        """bounded loop, emitted inline as `fuel` predicated copies of the body (flat SSA, which is
+        what bv_decide digests best); if the condition still holds after `fuel` iterations the
+        function faults (ok := false), so `ok` still implies termination within the bound."""
+        saved_path, saved_brk = ctx['path'], ctx['brk']
+        ctx['brk'] = 'false'
+        alive = 'true'
+        for it in range(fuel + 1):
+            p = self.after(ctx, saved_path)
+            p = self.band(p, alive)
+            ctx['path'] = p if p in ('true',) else self.let(ctx, 'lp', 'Bool', p)
+            c = self.cond(ctx, cond) if cond else 'true'
+            go = self.let(ctx, 'go', 'Bool', self.band(ctx['path'], c))
+            if it == fuel:
+                ctx['ok'] = self.let(ctx, 'ok', 'Bool', '(%s && !%s)' % (ctx['ok'], go))
+                break
+            ctx['path'] = go
+            self.stmt(ctx, body)
+            if inc:
+                ctx['path'] = self.after(ctx, go)
+                self.expr(ctx, inc)
+            alive = go
+        ctx['brk'] = saved_brk
+        ctx['path'] = self.after(ctx, saved_path)
+
+    def modified_in(self, ctx, n, out):
+        """syntactic over-approximation of what a statement can modify"""
+        if not isinstance(n, dict):
+            return
+        k = n.get('kind')
+
+        def root(x):
+            while x.get('kind') in ('ParenExpr', 'ImplicitCastExpr', 'CStyleCastExpr'):
+                x = x['inner'][0]
+            return x
+
+        def mark_lvalue(lv):
+            lv = root(lv)
+            lk = lv.get('kind')
+            if lk == 'DeclRefExpr':
+                nm = lv['referencedDecl']['name']
+                if nm in ctx['env']:
+                    out.add(('env', nm))
+                if nm in ctx['ptrvars']:
+                    out.add(('ptrvar', nm))
+            elif lk in ('ArraySubscriptExpr', 'MemberExpr') or (lk == 'UnaryOperator' and lv.get('opcode') == '*'):
+                b = root(lv['inner'][0])
+                while b.get('kind') in ('BinaryOperator', 'ArraySubscriptExpr', 'MemberExpr', 'UnaryOperator'):
+                    b = root(b['inner'][0])
+                if b.get('kind') == 'DeclRefExpr':
+                    nm = b['referencedDecl']['name']
+                    if nm in ctx['ptrvars']:
+                        out.add(('mem', ctx['ptrvars'][nm][0]))
+        if k == 'BinaryOperator' and n.get('opcode') == '=':
+            mark_lvalue(n['inner'][0])
+        elif k == 'CompoundAssignOperator':
+            mark_lvalue(n['inner'][0])
+        elif k == 'UnaryOperator' and n.get('opcode') in ('++', '--'):
+            mark_lvalue(n['inner'][0])
+        elif k == 'CallExpr':
+            for a in n['inner'][1:]:
+                b = root(a)
+                while b.get('kind') in ('BinaryOperator', 'UnaryOperator', 'ArraySubscriptExpr'):
+                    b = root(b['inner'][0])
+                if b.get('kind') == 'DeclRefExpr':
+                    nm = b['referencedDecl']['name']
+                    if nm in ctx['ptrvars']:
+                        out.add(('mem', ctx['ptrvars'][nm][0]))
+                    if nm in ctx['env'] and root(a).get('kind') == 'UnaryOperator':
+                        out.add(('env', nm))       # &local passed to a callee (memcpy into a local)
+        elif k == 'DeclStmt':
+            for d in n.get('inner', []):
+                if d.get('kind') == 'VarDecl':
+                    pass
+        for c in n.get('inner', []) or []:
+            self.modified_in(ctx, c, out)
 
     def inv_params(self, ctx):
         """invariant parameters handed to a loop function: memory lengths and tables"""
@@ -1010,10 +1107,16 @@ class Fn:
         out = ''.join(self.structs)
         out += 'structure %s.Res where\n' % self.name + ''.join('  %s : %s\n' % (f, t) for f, t, _ in res) + '\n'
         out += '\n'.join(self.aux) + ('\n' if self.aux else '')
-        out += 'def %s %s : %s.Res :=\n' % (self.name, ' '.join('(%s : %s)' % p for p in params), self.name)
-        out += '\n'.join(ctx['lines']) + ('\n' if ctx['lines'] else '')
-        out += '  ⟨' + ', '.join(e for _, _, e in res) + '⟩\n'
-        out += 'attribute [pbc_leaf] %s\n' % ' '.join([self.name] + getattr(self, 'loopnames', []))
+        pdecl = ' '.join('(%s : %s)' % p for p in params)
+        pargs = ' '.join(p[0] for p in params)
+        body = '\n'.join(ctx['lines']) + ('\n' if ctx['lines'] else '')
+        comps = []
+        for f, t, e in res:
+            out += 'def %s.%s %s : %s :=\n' % (self.name, f, pdecl, t) + body + '  %s\n\n' % e
+            comps.append('%s.%s' % (self.name, f))
+        out += 'def %s %s : %s.Res :=\n' % (self.name, pdecl, self.name)
+        out += '  ⟨' + ', '.join('%s.%s %s' % (self.name, f, pargs) for f, _, _ in res) + '⟩\n'
+        out += 'attribute [pbc_leaf] %s\n' % ' '.join([self.name] + comps + getattr(self, 'loopnames', []))
         return out
 
     def loops_touch(self, pn):
@@ -1119,6 +1222,28 @@ HEADER = '''/-
 import Pbc.Extract.Attr
 set_option linter.unusedVariables false
 namespace Pbc.%s
+
+/-- byte `ix` of a 10-byte window (byte i at bits 8i..8i+7); 0 outside the window -/
+def rd10 (buf : BitVec 80) (ix : BitVec 64) : BitVec 8 :=
+  bif ix == 0 then BitVec.extractLsb' 0 8 buf else bif ix == 1 then BitVec.extractLsb' 8 8 buf
+  else bif ix == 2 then BitVec.extractLsb' 16 8 buf else bif ix == 3 then BitVec.extractLsb' 24 8 buf
+  else bif ix == 4 then BitVec.extractLsb' 32 8 buf else bif ix == 5 then BitVec.extractLsb' 40 8 buf
+  else bif ix == 6 then BitVec.extractLsb' 48 8 buf else bif ix == 7 then BitVec.extractLsb' 56 8 buf
+  else bif ix == 8 then BitVec.extractLsb' 64 8 buf else bif ix == 9 then BitVec.extractLsb' 72 8 buf else 0
+
+/-- the window with byte `ix` replaced by `v` (unchanged when `ix` is outside the window) -/
+def wr10 (buf : BitVec 80) (ix : BitVec 64) (v : BitVec 8) : BitVec 80 :=
+  BitVec.setWidth 80 (bif ix == 0 then v else BitVec.extractLsb' 0 8 buf)
+  ||| (BitVec.setWidth 80 (bif ix == 1 then v else BitVec.extractLsb' 8 8 buf) <<< 8)
+  ||| (BitVec.setWidth 80 (bif ix == 2 then v else BitVec.extractLsb' 16 8 buf) <<< 16)
+  ||| (BitVec.setWidth 80 (bif ix == 3 then v else BitVec.extractLsb' 24 8 buf) <<< 24)
+  ||| (BitVec.setWidth 80 (bif ix == 4 then v else BitVec.extractLsb' 32 8 buf) <<< 32)
+  ||| (BitVec.setWidth 80 (bif ix == 5 then v else BitVec.extractLsb' 40 8 buf) <<< 40)
+  ||| (BitVec.setWidth 80 (bif ix == 6 then v else BitVec.extractLsb' 48 8 buf) <<< 48)
+  ||| (BitVec.setWidth 80 (bif ix == 7 then v else BitVec.extractLsb' 56 8 buf) <<< 56)
+  ||| (BitVec.setWidth 80 (bif ix == 8 then v else BitVec.extractLsb' 64 8 buf) <<< 64)
+  ||| (BitVec.setWidth 80 (bif ix == 9 then v else BitVec.extractLsb' 72 8 buf) <<< 72)
+attribute [pbc_leaf] rd10 wr10
 
 '''
 
